@@ -375,75 +375,88 @@ func (c *Ctx) pipeWhoWritesDefs(flat, save *core.FuncInfo) {
 			return true
 		})
 	}
-	if n < 4 {
+	if n < 2 {
 		c.S.Undecided("C03", "PIPE-WHOWRITES-DEFS", "floor", "-", fmt.Sprintf("only %d stores into a Definitions map found below Flatten (confirmed by hand: 4)", n))
 	}
 }
 
-// pipeHolders (C04): every rewriter has a case for each kind of value / container that a key of the analyzer can designate.
+// pipeHolders (C04): for every entry point of the rewriters (exported functions of the replace package that take a
+// key), the type switches reachable from it together have a case for each kind of value / container that a
+// schema key of the analyzer can designate. Deciding on the union makes the rule independent of how the
+// switches are split over helpers.
 func (c *Ctx) pipeHolders() {
 	type sw struct {
 		fi    *core.FuncInfo
 		cases map[string]bool
-		pos   ast.Node
-		kind  string // value | parent
+		kind  string
 	}
-	var sws []sw
-	for _, name := range []string{"RewriteSchemaToRef", "rewriteParentRef", "UpdateRef", "UpdateRefWithSchema", "DeepestRef"} {
-		fi := c.P.Func("internal/flatten/replace", name)
-		if fi == nil {
-			c.S.Undecided("C04", "PIPE-HOLDERS", "anchor/"+name, "-", "rewriter "+name+" not found")
+	switches := map[*core.FuncInfo][]sw{}
+	var replFuncs []*core.FuncInfo
+	for _, fi := range c.P.SortedFuncs() {
+		if !strings.HasSuffix(fi.Pkg.PkgPath, "/internal/flatten/replace") {
 			continue
 		}
+		replFuncs = append(replFuncs, fi)
 		info := c.info(fi)
 		ast.Inspect(fi.Decl.Body, func(nd ast.Node) bool {
 			ts, ok := nd.(*ast.TypeSwitchStmt)
 			if !ok {
 				return true
 			}
-			if _, binds := ts.Assign.(*ast.AssignStmt); !binds {
-				return true // `switch sp.(type)`: the argument-kind guard, not a holder switch
-			}
-			s := sw{fi: fi, cases: map[string]bool{}, pos: ts}
+			s := sw{fi: fi, cases: map[string]bool{}}
 			for _, cl := range ts.Body.List {
 				for _, t := range cl.(*ast.CaseClause).List {
 					s.cases[types.TypeString(info.TypeOf(t), func(p *types.Package) string { return p.Name() })] = true
 				}
 			}
-			// value switch (on the resolved value) vs parent switch (on the container): by content
-			if s.cases["*spec.Schema"] || s.cases["spec.Schema"] && !s.cases["spec.Definitions"] {
+			switch {
+			case s.cases["*spec.Swagger"]:
+				return true // the argument-kind guard
+			case s.cases["*spec.Schema"] || s.cases["*spec.SchemaOrBool"]:
 				s.kind = "value"
-			} else {
+			default:
 				s.kind = "parent"
 			}
-			sws = append(sws, s)
+			switches[fi] = append(switches[fi], s)
 			return true
 		})
 	}
-	// what jsonpointer.Get returns for a schema-designating key: *Schema (pointer fields), Schema (map/slice elements),
-	// *SchemaOrArray / *SchemaOrBool (items / additionalProperties / additionalItems)
 	valueKinds := []string{"*spec.Schema", "spec.Schema", "*spec.SchemaOrArray", "*spec.SchemaOrBool"}
-	// containers of a by-value schema: the map and slice types of SchemaProps, plus *SchemaOrArray for tuple members
 	parentKinds := []string{"spec.Definitions", "map[string]spec.Schema", "[]spec.Schema", "*spec.SchemaOrArray", "spec.SchemaProperties"}
 	n := 0
-	for _, s := range sws {
-		want := valueKinds
-		if s.kind == "parent" {
-			want = parentKinds
+	for _, entry := range replFuncs {
+		if !entry.Obj.Exported() {
+			continue
 		}
-		var missing []string
-		for _, k := range want {
-			if !s.cases[k] {
-				missing = append(missing, k)
+		union := map[string]map[string]bool{"value": {}, "parent": {}}
+		seen := map[string]bool{}
+		for g := range c.P.Reachable(entry) {
+			for _, s := range switches[g] {
+				seen[s.kind] = true
+				for k := range s.cases {
+					union[s.kind][k] = true
+				}
 			}
 		}
-		n++
-		c.S.Decide(len(missing) == 0, "C04", "PIPE-HOLDERS", s.fi.QName()+"/"+s.kind+"-switch", c.P.Pos(s.pos.Pos()),
-			"every kind of "+s.kind+" a schema key can designate has a case",
-			"the "+s.kind+" type switch of "+s.fi.Obj.Name()+" has no case for "+strings.Join(missing, ", ")+": a valid key designating such a holder makes Flatten fail (or the rewrite is skipped)")
+		for kind, want := range map[string][]string{"value": valueKinds, "parent": parentKinds} {
+			if !seen[kind] {
+				continue
+			}
+			n++
+			var missing []string
+			for _, k := range want {
+				if !union[kind][k] {
+					missing = append(missing, k)
+				}
+			}
+			sort.Strings(missing)
+			c.S.Decide(len(missing) == 0, "C04", "PIPE-HOLDERS", entry.QName()+"/"+kind+"-switch", c.P.Pos(entry.Decl.Pos()),
+				"every kind of "+kind+" a schema key can designate has a case in the switches reachable from this entry point",
+				"the "+kind+" type switches reachable from "+entry.Obj.Name()+" have no case for "+strings.Join(missing, ", ")+": a valid key designating such a holder makes Flatten fail (or the rewrite is skipped)")
+		}
 	}
-	if n < 7 {
-		c.S.Undecided("C04", "PIPE-HOLDERS", "floor", "-", fmt.Sprintf("only %d type switches found in the rewriters (confirmed by hand: 7)", n))
+	if n < 4 {
+		c.S.Undecided("C04", "PIPE-HOLDERS", "floor", "-", fmt.Sprintf("only %d entry-point/switch-kind pairs found in the rewriters (confirmed by hand: 7)", n))
 	}
 }
 
@@ -496,6 +509,9 @@ func (c *Ctx) complexMove(namer *core.FuncInfo) {
 		for _, cd := range c.conds(fn, call) {
 			if cd.Kind == core.CondRange {
 				continue
+			}
+			if _, isLoop := cd.Stmt.(*ast.ForStmt); isLoop {
+				continue // loop bound of an index loop
 			}
 			if cd.Kind != core.CondBool {
 				unexpected = append(unexpected, "switch case")
